@@ -28,6 +28,11 @@ pub trait VToString { spec fn vts_spec(&self) -> Seq<char>; fn vto_string(&self)
 impl VToString for String { open spec fn vts_spec(&self) -> Seq<char> { self@ } #[verifier::external_body] fn vto_string(&self) -> String { self.to_string() } }
 impl VToString for str { open spec fn vts_spec(&self) -> Seq<char> { self@ } #[verifier::external_body] fn vto_string(&self) -> String { self.to_string() } }
 impl VToString for usize { open spec fn vts_spec(&self) -> Seq<char> { dec_spec(*self as int) } #[verifier::external_body] fn vto_string(&self) -> String { self.to_string() } }
+impl VToString for isize { open spec fn vts_spec(&self) -> Seq<char> { dec_spec(*self as int) } #[verifier::external_body] fn vto_string(&self) -> String { self.to_string() } }
+impl VToString for i32 { open spec fn vts_spec(&self) -> Seq<char> { dec_spec(*self as int) } #[verifier::external_body] fn vto_string(&self) -> String { self.to_string() } }
+impl VToString for u32 { open spec fn vts_spec(&self) -> Seq<char> { dec_spec(*self as int) } #[verifier::external_body] fn vto_string(&self) -> String { self.to_string() } }
+impl VToString for i64 { open spec fn vts_spec(&self) -> Seq<char> { dec_spec(*self as int) } #[verifier::external_body] fn vto_string(&self) -> String { self.to_string() } }
+impl VToString for u64 { open spec fn vts_spec(&self) -> Seq<char> { dec_spec(*self as int) } #[verifier::external_body] fn vto_string(&self) -> String { self.to_string() } }
 impl VToString for bool { open spec fn vts_spec(&self) -> Seq<char> { if *self { "true"@ } else { "false"@ } } #[verifier::external_body] fn vto_string(&self) -> String { self.to_string() } }
 // ---- std string functions (R2/R4/R5): specifications over Seq<char>, trusted to match std's documentation ----
 pub uninterp spec fn is_ws(c: char) -> bool; // Unicode White_Space
@@ -79,3 +84,6 @@ pub fn vstr_eq(a: &str, b: &str) -> (r: bool) ensures r == (a@ == b@) { a == b }
 pub uninterp spec fn lower(s: Seq<char>) -> Seq<char>;
 #[verifier::external_body]
 pub fn v_to_lowercase(s: &str) -> (r: String) ensures r@ == lower(s@) { s.to_lowercase() }
+// R4c: String::from(X) -> v_string_from(X) (impl From<&str> for String cannot be given a specification: binder mismatch)
+#[verifier::external_body]
+pub fn v_string_from(s: &str) -> (r: String) ensures r@ == s@ { String::from(s) }
